@@ -36,7 +36,7 @@ func init() {
 		Run: run,
 		Floors: func(t string) map[string]int64 {
 			return map[string]int64{"cfg.entirely_inside": 100, "cfg.entirely_outside_bbox_overlap": 100, "cfg.entirely_outside_bbox_disjoint": 100, "cfg.crosses_hole": 100, "cfg.enters_several_times": 200, "cfg.two_vertex_line": 100,
-				"recv.MultiLineString": 300, "arg.*Bounds": 100, "arg.MultiPolygon": 300, "arg.Polygon": 300, "result.vertices_checked": 5000, "line.long": 100, "line.axis_parallel": 500, "line.all_vertices_in_one_hole": 300, "line.vertices_around_one_hole": 300, "line.long_approach>=511": 150, "line.members_close_a_loop": 100, "line.loop_with_a_member_ending_at_a_junction": 40, "through_vertex.cases": 10000, "through_vertex.line_enters_the_polygon": 3000, "line.members_share_an_end_point": 100, "storage.paths_share_one_backing_array": 500}
+				"recv.MultiLineString": 300, "arg.*Bounds": 100, "arg.MultiPolygon": 300, "arg.Polygon": 300, "result.vertices_checked": 5000, "line.long": 100, "line.axis_parallel": 500, "line.all_vertices_in_one_hole": 300, "line.vertices_around_one_hole": 300, "line.long_approach>=511": 150, "line.members_close_a_loop": 100, "line.loop_with_a_member_ending_at_a_junction": 40, "line.around_the_member_in_the_bay_of_another": 150, "through_vertex.cases": 10000, "through_vertex.line_enters_the_polygon": 3000, "line.members_share_an_end_point": 100, "storage.paths_share_one_backing_array": 500}
 		},
 	})
 }
@@ -162,7 +162,7 @@ func distToLines(p exact.P, lines [][]geom.Point) float64 {
 	return d
 }
 
-var polyKinds = []string{"star", "starholes", "starholes", "comb", "stair", "multi", "box", "nested"}
+var polyKinds = []string{"star", "starholes", "starholes", "comb", "stair", "multi", "box", "nested", "interlocked"}
 
 func run(c *core.Ctx, idx int) {
 	if c.Phase == "through_vertex" {
@@ -373,6 +373,11 @@ func run(c *core.Ctx, idx int) {
 			lcx += scale * 1.1
 			lcy += scale * 1.1
 			lrad = scale * 0.35
+		}
+		if op.Kind == "interlocked" && nl == 1 && r.Chance(0.6) {
+			// around the small member in the bay of the U-shaped one (both bounding boxes hold the line)
+			lcx, lcy, lrad = op.Isle.X, op.Isle.Y, op.Isle.In*r.Range(0.6, 1.3)
+			c.Count("line.around_the_member_in_the_bay_of_another")
 		}
 		// members of a multi-line string live in separate vertical strips so they are disjoint
 		if nl > 1 {
